@@ -489,12 +489,16 @@ impl ViCut {
 				if count > 1 {
 					repeat = count as u16;
 				}
+				// The recorded commands were typed in insert mode, where the cursor may sit past the last character
+				self.current_buffer().set_cursor_clamp(false);
 				for _ in 0..repeat {
 					let cmds = cmds.clone();
 					for cmd in cmds {
 						self.current_buffer().exec_cmd(cmd)?
 					}
 				}
+				let should_clamp = self.mode.clamp_cursor();
+				self.current_buffer().set_cursor_clamp(should_clamp);
 			}
 			CmdReplay::Single(mut cmd) => {
 				if count > 1 {
